@@ -14,7 +14,7 @@ from verif.reglang.alphabet import MARK, alphabet
 PROPERTY = "C20"
 LEVEL = "other"
 LEVEL_TEXT = "termination of the scanner is proved as a progress contract: the control skeleton of tokenize (checked against the AST) has exactly the branches fence / space / table / fall-back; for every TOKEN_PATTERNS entry and every left context the fired-match language contains no empty match (regular-language emptiness, so `pos = match.end()` strictly increases pos), the space branch and the identifier branch advance by a non-empty text by construction and every other fall-back raises LexerError (R1/R0). Exception classes are decided on the AST: every raise statement in the closure of tokenize is LexerError and every raise in the parser module is ParserError (or a bare re-raise), bracket recursion is cut by _check_deep_nesting before each recursive descent (F1, F3); in the four tools every call of a reading/emitting/compiling stage lies inside a try whose handler catches Exception (or the two reader errors) and returns an envelope (F2). Built-in exceptions from expressions (index, key, conversion), the parser's loop progress, JSON-serialisability and the timing clause are not proved: they are explored by exhaustive short token sequences, random Unicode, mutated packaged documents, tool flag products and size scaling"
-LEVEL_NOTE = "scanner progress is unbounded (all inputs); parser loop progress is unbounded for 25 of 29 loops and modulo a callee assumption for the 4 structural ones; only the listed exception sources (explicit raises, library-call table) are under the escape contract, implicit built-in exceptions are bounded only; the timing clause is a wall-clock measurement with a 6x slack over linear growth and a serial re-measurement before reporting"
+LEVEL_NOTE = "scanner progress is unbounded (all inputs); parser loop progress is unbounded for all 29 loops (the structural ones through callee contracts CONSUMES / CONSUMES_IF / TRUTHY proved as a least fixpoint by the same path engine; `self.pos` stored by advance alone); only the listed exception sources (explicit raises, library-call table) are under the escape contract, implicit built-in exceptions are bounded only; the timing clause is a wall-clock measurement with a 6x slack over linear growth and a serial re-measurement before reporting"
 TECHNIQUE = "progress (variant) contract on the real scanner decided by regular-language emptiness per table entry + AST skeleton; exception-escape (raises-clause) contract over the readers' call closure by fixpoint on the call graph + recursion-cycle contract; raise-site and guarded-call contracts decided on the AST; bounded sweeps (token sequences, random/mutated inputs, tool flag products, scaling)"
 EXPLANATION = "C20: R0/R1 scanner progress, F1 raise-site classes, F2 guarded stage calls in the tools, F3 recursion cut, F5 exception-escape sets, F6 recursion cycles, F7 parser loop progress (path analysis), B5 hostile atoms, B1 token sequences, B2 random and mutated inputs, B3 tools x flags -> json.dumps, B4 scaling and depth probes."
 ASSUMPTIONS = ["CPython re semantics as modelled by verif.reglang (differentially tested)", "exceptions raised implicitly by expressions (IndexError, KeyError, AttributeError, TypeError) are outside the escape contract (bounded tier)", "the library-call table of props/escape.py (re.compile, int, float, chr, json.loads, yaml.safe_load, fromisoformat, strptime: what they raise on hostile input) is complete for the library calls the readers make", "calls through receivers of unknown type resolve to every method of that name (over-approximation); recursion through such calls is not tracked", "wall-clock timing on a shared 16-core machine", "parser progress of the four structural main loops is modulo: a call of parse_value / parse_list_item / parse_section / parse_flow_expression consumes at least one token (bounded tier)", "the token stream ends with its only EOF token (lexer appends it last)"]
@@ -323,18 +323,26 @@ def ob_parser_progress(ctx: Ctx) -> Outcome:
     except Exception as e:  # noqa: BLE001
         return Outcome.undecided("ast-paths", f"{type(e).__name__}: {e}")
     problems = list(pinned)
-    structural_seen: dict[str, int] = {}
+    try:
+        problems += [f"pos frame: {x}" for x in PG.pos_frame_pinned()]
+        K, why = PG.parser_contracts()
+    except Exception as e:  # noqa: BLE001
+        return Outcome.undecided("ast-paths", f"{type(e).__name__}: {e}")
     for r in recs:
         if r["proved"]:
             continue
-        if r["function"] in PG.STRUCTURAL and r["proved_modulo_callees"] and structural_seen.get(r["function"], 0) == 0:
-            structural_seen[r["function"]] = 1  # the one main loop of a structural reader: proved modulo its callees
-            continue
-        why = "does not exit at EOF" if not r["eof_exit"] else f"{r.get('back_paths_without_consumption')} path(s) back to the loop head without advance()/expect()" + (" (even counting the value / item / section readers as consuming)" if r["function"] in PG.STRUCTURAL else "")
-        problems.append(f"{r['function']} L{r['line']}: `while {r['test'][:70]}` is not proved to make progress: {why}")
+        why_not = "does not exit at EOF" if not r["eof_exit"] else f"{r.get('back_paths_without_consumption')} path(s) back to the loop head without advance()/expect(); with the callee contracts: {r.get('contract_detail')}"
+        problems.append(f"{r['function']} L{r['line']}: `while {r['test'][:70]}` is not proved to make progress: {why_not}")
     if len(recs) < 20:
         problems.append(f"only {len(recs)} while loops found in Parser (29 on the pinned tree)")
-    extra = dict(loops=len(recs), proved=sum(1 for r in recs if r["proved"]), proved_modulo_callees=[f"{r['function']} `while {r['test'][:50]}`" for r in recs if not r["proved"] and r["proved_modulo_callees"]], assumed_consuming_callees=list(PG.ASSUMED_CONSUMERS), variants=sorted({r["variant"] for r in recs if r.get("variant")}))
+    extra = dict(
+        loops=len(recs),
+        proved=sum(1 for r in recs if r["proved"]),
+        proved_through_callee_contracts=[f"{r['function']} L{r['line']} `while {r['test'][:40]}`" for r in recs if r.get("proved_by_contracts")],
+        callee_contracts_proved=dict(CONSUMES=sorted(K.known), CONSUMES_IF={k: sorted(v) for k, v in sorted(K.cond.items()) if k not in K.known}, TRUTHY=sorted(K.truthy - K.known)),
+        assumed_consuming_callees=[],
+        variants=sorted({r["variant"] for r in recs if r.get("variant")}),
+    )
     if problems:
         return shape_verdict("ast-paths", problems, probe_parser_hangs, len(recs), {"runner": "props.C20:probe_parser_hangs", "args": {}})
     return Outcome.ok("ast-paths", count=len(recs), **extra)
@@ -485,7 +493,7 @@ def obligations(ctx: Ctx):
         Ob(f"{P}.F2", "F", "tools: every reading / emitting / compiling stage call lies inside a covering try", ["octave_mcp.mcp.validate:ValidateTool.execute", "octave_mcp.mcp.write:WriteTool.execute", "octave_mcp.mcp.eject:EjectTool.execute", "octave_mcp.mcp.compile_grammar:CompileGrammarTool.execute"], ob_guarded_stages),
         Ob(f"{P}.F3", "F", "bracket recursion is cut by _check_deep_nesting at MAX_NESTING_DEPTH", [f"{PARSER}:Parser.parse_list"], ob_recursion_cut),
         Ob(f"{P}.F5", "F", "exception escape: only LexerError / ParserError can leave the readers (explicit raises + library-call table, propagated through the call graph, minus enclosing handlers)", FUNCS, ob_exception_escape),
-        Ob(f"{P}.F7", "F", "parser progress: every while loop exits at EOF and consumes a token (or advances its scan index) on every path back to the loop head - 25 of 29 outright, the 4 structural main loops counting their value / item / section readers as consuming", [f"{PARSER}:Parser.*"], ob_parser_progress),
+        Ob(f"{P}.F7", "F", "parser progress: every while loop exits at EOF and consumes a token (or advances its scan index) on every path back to the loop head; the structural main loops consume through callees whose contracts (CONSUMES, CONSUMES_IF on the path's token-type fact, TRUTHY) are proved by the same path engine as a least fixpoint; self.pos is stored by advance() alone", [f"{PARSER}:Parser.*"], ob_parser_progress),
         Ob(f"{P}.F6", "F", "recursive cycles other than the capped bracket descent are entered only below a RecursionError handler", FUNCS, ob_recursion_cycles),
         Ob(f"{P}.F4", "F", "parser receipts (copied verbatim into tool envelopes) hold only JSON-safe values", [f"{PARSER}:Parser.*"], ob_receipt_values),
     ]
